@@ -58,12 +58,12 @@ Record state : Type := mkState {
 Definition empty_state (fl : bool) : state := mkState [] [] fl.
 
 Inductive mexn : Type :=
-| XKey | XBadValue | XAttr | XType | XNotImpl | XSyntax | XName.
+| XKey | XBadValue | XAttr | XType | XNotImpl | XSyntax.
 
 Definition mexn_code (e : mexn) : Z :=
   match e with
   | XKey => 1 | XBadValue => 4 | XAttr => 5 | XType => 6 | XNotImpl => 7
-  | XSyntax => 8 | XName => 9
+  | XSyntax => 8
   end.
 
 (* ---------- association lists keyed by names ---------- *)
@@ -352,7 +352,8 @@ Definition append_m (st : state) (i : Z) (n : name) (v : Z) : state * outcome :=
   | Some x =>
     match ns_get n (i_dict x) with
     | Some (SColl f vs) =>
-      if conforms st1 (f_type f) v
+      (* ECollection.check: None is refused by reference collections *)
+      if conforms st1 (f_type f) v && negb ((v =? -1) && (0 <? f_type f))
       then (set_slot st1 i n (SColl f (if zmem v vs then vs else vs ++ [v])), ROk [])
       else (st1, RErr XBadValue)
     | _ => (st1, RErr XAttr)
@@ -365,10 +366,10 @@ Definition enc_gres (g : gres) : list Z :=
   | GSingle v => [1; v]
   | GColl vs => 2 :: Z.of_nat (length vs) :: vs
   | GStaleSingle => [3]
-  | GStaleColl vs => 6 :: Z.of_nat (length vs) :: vs
+  | GStaleColl vs => 2 :: Z.of_nat (length vs) :: vs   (* the same object a live feature would give *)
   | GFun _ => [4; 0]
   | GBeh b => [4; b]
-  | GRaw v => [5; v]
+  | GRaw v => [1; v]
   end.
 
 (* ---------- one step ---------- *)
@@ -390,7 +391,6 @@ Definition add_oper (st : state) (c : Z) (o : oper) : state * outcome :=
     let h := to_code (o_name o) (o_params o) in
     match py_def h with
     | inl SyntaxErr => (st1, RErr XSyntax)
-    | inl NameErr => (st1, RErr XName)
     | inr s => (upd_cls st1 c (fun k1 => with_ns (ns_set (h_name h) (EFun s) (c_ns k1)) k1), ROk [])
     end
   end.
